@@ -522,6 +522,46 @@ func c16Paths(p *core.Program, r *core.Report) {
 			fileProbs(r, "C16.count", name, pos, cnt, "one WritePack encoding written, counted once")
 			fileProbs(r, "C16.triggers", name, pos, trg, "size limit always tested; wait limit once a batch is open; flush iff a limit is reached")
 			r.OK("C16.decodable", name, pos, "buffer receives dout bytes of pack.WritePack")
+		case "ApplyConfig":
+			// every path through ApplyConfig looks at each of the four limits (assigns it, or compares it
+			// with the configured value to find it unchanged): no early way out after the first one
+			limits := []string{"logsinkQueueSize", "logsinkMaxWaitTime", "logsinkMaxBufferSize", "logsinkZipMinSize"}
+			ps, _ := paths.Enumerate(fi.Decl.Body, paths.Config{Info: fi.Pkg.TypesInfo,
+				Cond: func(c ast.Expr, v bool) *paths.Event {
+					s := z.norm(c)
+					for _, l := range limits {
+						if strings.Contains(s, l) {
+							return &paths.Event{Kind: "TOUCH", Arg: l}
+						}
+					}
+					return nil
+				},
+				Classify: func(m ast.Node) []paths.Event {
+					var out []paths.Event
+					if as, ok := m.(*ast.AssignStmt); ok {
+						for _, l := range as.Lhs {
+							for _, lim := range limits {
+								if z.norm(l) == lim {
+									out = append(out, paths.Event{Kind: "TOUCH", Arg: lim})
+								}
+							}
+						}
+					}
+					return out
+				}})
+			var miss []string
+			for _, pa := range ps {
+				if pa.Has("PANIC") {
+					continue
+				}
+				for _, lim := range limits {
+					if !pa.HasArg("TOUCH", lim) {
+						miss = append(miss, lim)
+					}
+				}
+			}
+			r.Check(len(miss) == 0, "C16.defaults", name+" applies every limit", pos, "each of the four limits is taken from the configuration on every path",
+				"a path through ApplyConfig returns without applying "+strings.Join(uniq(miss), ", ")+": the configured value never takes effect")
 		case "run":
 			// path rule over one round of the background loop: when the stop signal is received the
 			// pending batch is flushed before returning; when the timed wait on the queue comes back
